@@ -17,7 +17,7 @@ META = {
     "level": "proof",
     "rule": 'B1 case = (element record with all strengths exactly zero, energy)' + ((" | falsifier: " + F.META.get("rule", "")) if F and hasattr(F, "META") else ""),
     "modelled": 'all linear maps at the guard points; cavity tracking at V=0; TDC at V=0 (Maps.lean, Elements.lean, Bmadx.lean)',
-    "gap": 'continuity is proved as a bound for the focusing function only; Bmad-X bend / quadrupole limits are falsifier-only',
+    "gap": 'continuity is proved as a bound for the focusing functions only (linear guard 1e-12, Bmad-X quadrupole eps); the Bmad-X bend limit is falsifier-only',
     "assumptions": ((F.META.get("assumptions", []) if F and hasattr(F, "META") else []) + []),
 }
 
